@@ -17,13 +17,39 @@ use crate::rng::TestRng;
 use crate::{scn, Scenario};
 
 pub fn scenarios() -> Vec<Scenario> {
-    vec![scn!(scenario_dkg_resume), scn!(scenario_signing_resume), scn!(scenario_refresh_dkg_resume)]
+    vec![
+        scn!(scenario_dkg_resume, 3),
+        scn!(scenario_signing_resume, 3),
+        scn!(scenario_refresh_dkg_resume, 3),
+        scn!(scenario_large_state, 1),
+    ]
 }
 
-/// store + load through the type's own binary codec or through JSON
+/// How the state is stored and read back.
+#[derive(Clone, Copy, Debug)]
+enum Storage {
+    /// the type's own serialize()/deserialize() (postcard)
+    Binary,
+    /// serde_json text read back with from_str (can lend string data from the input)
+    JsonStr,
+    /// ... with from_slice
+    JsonSlice,
+    /// ... with from_reader (a file after a restart; cannot lend data)
+    JsonReader,
+    /// ... through a serde_json::Value (cannot lend data)
+    JsonValue,
+}
+
+fn pick_storage(rng: &mut TestRng, notes: &mut Notes) -> Storage {
+    let st = [Storage::Binary, Storage::Binary, Storage::JsonStr, Storage::JsonSlice, Storage::JsonReader, Storage::JsonValue][rng.below(6)];
+    notes.insert("storage".into(), json!(format!("{st:?}")));
+    st
+}
+
+/// store + load
 fn persist<T, C: Suite>(
     v: &T,
-    json_form: bool,
+    st: Storage,
     name: &str,
     ser: impl Fn(&T) -> Result<Vec<u8>, FErr<C>>,
     de: impl Fn(&[u8]) -> Result<T, FErr<C>>,
@@ -31,12 +57,30 @@ fn persist<T, C: Suite>(
 where
     T: Serialize + DeserializeOwned,
 {
-    if json_form {
-        let text = must(serde_json::to_string(v), &format!("{name}: store as JSON"))?;
-        must(serde_json::from_str::<T>(&text), &format!("{name}: load from its own JSON"))
-    } else {
-        let b = must(ser(v), &format!("{name}::serialize"))?;
-        must(de(&b), &format!("{name}::deserialize of its own serialization"))
+    match st {
+        Storage::Binary => {
+            let b = must(ser(v), &format!("{name}::serialize"))?;
+            must(de(&b), &format!("{name}::deserialize of its own serialization ({} bytes)", b.len()))
+        }
+        Storage::JsonStr => {
+            let text = must(serde_json::to_string(v), &format!("{name}: store as JSON"))?;
+            must(serde_json::from_str::<T>(&text), &format!("{name}: serde_json::from_str of its own JSON"))
+        }
+        Storage::JsonSlice => {
+            let text = must(serde_json::to_vec_pretty(v), &format!("{name}: store as JSON"))?;
+            must(serde_json::from_slice::<T>(&text), &format!("{name}: serde_json::from_slice of its own JSON"))
+        }
+        Storage::JsonReader => {
+            let text = must(serde_json::to_vec(v), &format!("{name}: store as JSON"))?;
+            must(
+                serde_json::from_reader::<_, T>(std::io::Cursor::new(text)),
+                &format!("{name}: serde_json::from_reader of its own JSON"),
+            )
+        }
+        Storage::JsonValue => {
+            let val = must(serde_json::to_value(v), &format!("{name}: store as serde_json::Value"))?;
+            must(serde_json::from_value::<T>(val), &format!("{name}: serde_json::from_value of its own JSON value"))
+        }
     }
 }
 
@@ -53,8 +97,7 @@ fn same_bytes<C: Suite>(a: Result<Vec<u8>, FErr<C>>, b: Result<Vec<u8>, FErr<C>>
 
 pub fn scenario_dkg_resume<C: Suite>(rng: &mut TestRng, p: &Params, notes: &mut Notes) -> Verdict {
     let ids = make_ids::<C>(&p.ids)?;
-    let json_form = rng.chance(50);
-    notes.insert("storage".into(), json!(if json_form { "json" } else { "binary" }));
+    let json_form = pick_storage(rng, notes);
     let run = dkg_rounds::<C>(rng, &ids, p.n, p.t, false)?;
     let fin = dkg_finish::<C>(&run, false)?;
     let me = match ids.get(rng.below(ids.len())) {
@@ -95,8 +138,7 @@ pub fn scenario_dkg_resume<C: Suite>(rng: &mut TestRng, p: &Params, notes: &mut 
 }
 
 pub fn scenario_signing_resume<C: Suite>(rng: &mut TestRng, p: &Params, notes: &mut Notes) -> Verdict {
-    let json_form = rng.chance(50);
-    notes.insert("storage".into(), json!(if json_form { "json" } else { "binary" }));
+    let json_form = pick_storage(rng, notes);
     let (keys, signers, sess) = setup_session::<C>(rng, p)?;
     let sig_mem = need(fc::aggregate::<C>(&sess.package, &sess.shares, &keys.pubkeys), "aggregate")?;
     // boundary: after obtaining the key package, and after committing to nonces
@@ -135,10 +177,17 @@ pub fn scenario_signing_resume<C: Suite>(rng: &mut TestRng, p: &Params, notes: &
 }
 
 pub fn scenario_refresh_dkg_resume<C: Suite>(rng: &mut TestRng, p: &Params, notes: &mut Notes) -> Verdict {
-    let json_form = rng.chance(50);
-    notes.insert("storage".into(), json!(if json_form { "json" } else { "binary" }));
+    let json_form = pick_storage(rng, notes);
     let keys = keygen::<C>(rng, p, false)?;
-    let ids = keys.ids.clone();
+    // the refresh may shrink the group, down to exactly the threshold (t-of-t afterwards)
+    let size = match rng.below(3) {
+        0 => p.t as usize,
+        1 => keys.ids.len(),
+        _ => rng.range(p.t as usize, keys.ids.len()),
+    };
+    let sub = rng.subset(keys.ids.len(), size);
+    let ids: Vec<Id<C>> = sub.iter().filter_map(|i| keys.ids.get(*i)).copied().collect();
+    notes.insert("refreshing_participants".into(), json!(ids.len()));
     let n = ids.len() as u16;
     // in-memory run
     let mut s1 = BTreeMap::new();
@@ -202,4 +251,36 @@ pub fn scenario_refresh_dkg_resume<C: Suite>(rng: &mut TestRng, p: &Params, note
     same(&pkp, &pkp_mem, "refresh_dkg_shares from restored state returns the same public key package")?;
     same_bytes::<C>(kp.serialize(), kp_mem.serialize(), "refreshed key package bytes are identical")?;
     same_bytes::<C>(pkp.serialize(), pkp_mem.serialize(), "refreshed public key package bytes are identical")
+}
+
+/// State of very large groups / thresholds survives storage: the round-one secret package of a
+/// t = n = 1100 key generation and of a distributed refresh (about 70 kB for the 32-byte suites), and
+/// the public key package of a 1100-participant group.  Only part one and store/restore are run.
+pub fn scenario_large_state<C: Suite>(rng: &mut TestRng, _p: &Params, notes: &mut Notes) -> Verdict {
+    let st = pick_storage(rng, notes);
+    let n: u16 = [1100u16, 1024, 1500][rng.below(3)];
+    notes.insert("max_signers".into(), json!(n));
+    notes.insert("min_signers".into(), json!(n));
+    let id = need(Id::<C>::try_from(rng.range(1, n as usize) as u16), "id")?;
+    let (s1, pk1) = need(dkg::part1::<C, _>(id, n, n, &mut *rng), "dkg::part1 with t = n")?;
+    let back = persist::<_, C>(&s1, st, "dkg::round1::SecretPackage (large threshold)", |x| x.serialize(), |b| dkg::round1::SecretPackage::<C>::deserialize(b))?;
+    same(&back, &s1, "restored large round-one secret package equals the stored one")?;
+    let back = persist::<_, C>(&pk1, st, "dkg::round1::Package (large threshold)", |x| x.serialize(), |b| dkg::round1::Package::<C>::deserialize(b))?;
+    same(&back, &pk1, "restored large round-one package equals the stored one")?;
+    let (r1, _) = need(refresh::refresh_dkg_part1::<C, _>(id, n, n, &mut *rng), "refresh_dkg_part1 with t = n")?;
+    let back = persist::<_, C>(&r1, st, "refresh round-one SecretPackage (large threshold)", |x| x.serialize(), |b| dkg::round1::SecretPackage::<C>::deserialize(b))?;
+    same(&back, &r1, "restored large refresh secret package equals the stored one")?;
+    // a large group's public key package (dealer, t = 2 keeps it cheap)
+    let (shares, pkp) = need(
+        frost_core::keys::generate_with_dealer::<C, _>(n, 2, frost_core::keys::IdentifierList::Default, rng),
+        "generate_with_dealer for a large group",
+    )?;
+    let back = persist::<_, C>(&pkp, st, "PublicKeyPackage (large group)", |x| x.serialize(), |b| PublicKeyPackage::<C>::deserialize(b))?;
+    same(&back, &pkp, "restored large public key package equals the stored one")?;
+    if let Some(sh) = shares.values().next() {
+        let kp = need(KeyPackage::<C>::try_from(sh.clone()), "KeyPackage::try_from")?;
+        let back = persist::<_, C>(&kp, st, "KeyPackage", |x| x.serialize(), |b| KeyPackage::<C>::deserialize(b))?;
+        same(&back, &kp, "restored key package equals the stored one")?;
+    }
+    Ok(())
 }
